@@ -90,7 +90,14 @@ func ack(pkg []byte) []byte {
 	return netlab.Frame(b)
 }
 
+var bigMark = []byte("BIG!")
+
 func (p *srvProto) Invoke(ctx context.Context, pkg []byte) []byte {
+	if len(pkg) >= 9 && bytes.Equal(pkg[4:8], bigMark) {
+		// a large response filled with the request's own byte: responses of handlers running in
+		// parallel for one connection must reach the peer as whole packets too
+		return netlab.Frame(bytes.Repeat([]byte{pkg[8]}, bigResponse))
+	}
 	r := p.cur.Load()
 	if !(len(pkg) >= 8 && bytes.Equal(pkg[4:8], bystMark)) {
 		r.mu.Lock()
@@ -126,6 +133,61 @@ func (p *cliProto) Recv(pkg []byte) {
 	r.mu.Lock()
 	r.handed = append(r.handed, append([]byte(nil), pkg...))
 	r.mu.Unlock()
+}
+
+const bigResponse = 3 << 20
+
+// bigResponsesScenario: k requests pipelined on one connection, each answered (by handlers running
+// in parallel, no worker pool) with a 3 MiB packet filled with the request's own byte.  The peer must
+// receive k whole packets, each of the full length and of one byte value, one per request.
+func bigResponsesScenario(srv *server, k int) {
+	conn, err := net.DialTimeout("tcp", srv.addr, 3*time.Second)
+	if err != nil {
+		run.Inconclusive("dial failed: " + err.Error())
+		return
+	}
+	defer conn.Close()
+	var stream []byte
+	for i := 0; i < k; i++ {
+		stream = append(stream, netlab.Frame(append(append([]byte(nil), bigMark...), byte('a'+i)))...)
+	}
+	if _, err := conn.Write(stream); err != nil {
+		run.Inconclusive("write failed: " + err.Error())
+		return
+	}
+	fr := &netlab.FrameReader{Conn: conn}
+	seen := map[byte]int{}
+	wit := map[string]interface{}{"scenario": "big-responses", "requests": k, "response_bytes": bigResponse}
+	for i := 0; i < k; i++ {
+		f, err := fr.Next(30 * time.Second)
+		if err != nil {
+			wit["responses_received"] = i
+			run.Violation("packets-not-delivered", "client-of-server:big-responses", fmt.Sprintf("%d of %d large responses of one connection arrived as whole packets (%v)", i, k, err), wit)
+			return
+		}
+		body := f[4:]
+		if len(body) != bigResponse {
+			wit["length"] = len(body)
+			run.Violation("framing-mismatch", "client-of-server:big-responses", fmt.Sprintf("response %d has %d bytes, every response has %d", i, len(body), bigResponse), wit)
+			return
+		}
+		for j := range body {
+			if body[j] != body[0] {
+				wit["offset"], wit["byte"], wit["first_byte"] = j, body[j], body[0]
+				run.Violation("framing-mismatch", "client-of-server:big-responses", fmt.Sprintf("response %d (for request %q) carries a byte of another response at offset %d (%q)", i, body[0], j, body[j]), wit)
+				return
+			}
+		}
+		seen[body[0]]++
+	}
+	for i := 0; i < k; i++ {
+		if seen[byte('a'+i)] != 1 {
+			run.Violation("framing-mismatch", "client-of-server:big-responses", fmt.Sprintf("request %q was answered %d times", byte('a'+i), seen[byte('a'+i)]), wit)
+			return
+		}
+	}
+	run.Eval(1)
+	run.Distinct(fmt.Sprintf("big-responses|%d", k))
 }
 
 // ---------- scenarios ----------
@@ -565,7 +627,7 @@ func sizesFor(r *rand.Rand, maxLen int, n int, withMax bool) []int {
 func main() {
 	run = vlib.Start("C07")
 	rogger.SetLevel(rogger.OFF)
-	run.SetRule("scenarios = (side server/client, max-length setting {64,4096,1MiB,10MiB}, pool 0/1, packet sequence of 1..200 packets with sizes from {4,5,6,...,4095..4097,8191..8193,random<=256KiB,max-1,max}, partition kind {one write, single bytes, inside the 4-byte prefix, packet boundaries+-1, per packet, 3 coalesced, packet+part of next prefix, random}, pacing {none, yield, 1ms}) plus illegal prefixes {0,1,3,max+1,2^31,2^32-1} after j good packets with a bystander connection, and on the client side a packet cut short followed by a reconnect. A case is one scenario; distinct = distinct (side, max, size sequence, observed buffer-length sequence).")
+	run.SetRule("scenarios = (side server/client, max-length setting {64,4096,1MiB,10MiB}, pool 0/1, packet sequence of 1..200 packets with sizes from {4,5,6,...,4095..4097,8191..8193,random<=256KiB,max-1,max}, partition kind {one write, single bytes, inside the 4-byte prefix, packet boundaries+-1, per packet, 3 coalesced, packet+part of next prefix, random}, pacing {none, yield, 1ms}) plus illegal prefixes {0,1,3,max+1,2^31,2^32-1} after j good packets with a bystander connection, and on the client side a packet cut short followed by a reconnect; several 3 MiB responses of parallel handlers on one connection. A case is one scenario; distinct = distinct (side, max, size sequence, observed buffer-length sequence).")
 	run.Assume("kernel coalescing: the receiver's read boundaries are observed (buffer lengths shown to ParsePackage), not assumed equal to the writer's cuts")
 	maxLens := []int{64, 4096, 1 << 20, 10485760}
 	nPer := run.Pick(40, 1000)
@@ -634,6 +696,11 @@ func main() {
 			}(rep)
 		}
 		wg.Wait()
+		if ml == 10485760 {
+			for rep := 0; rep < run.Pick(3, 20); rep++ {
+				bigResponsesScenario(startServer(0), 4+rep%5)
+			}
+		}
 		// ---- illegal prefixes (each costs >= 0.5 s of the server's own close polling): in parallel ----
 		illegal := []int64{0, 1, 3, int64(ml) + 1, 1 << 31, 1<<32 - 1}
 		var wg2 sync.WaitGroup
